@@ -43,7 +43,12 @@ func (r *Replayer) Replay(process func(record []byte) error) (err error) {
 		}
 	}()
 
-	for _, path := range walFiles {
+	for i, path := range walFiles {
+		// the process can be killed while it appends to the newest file: its file header or its last record may be
+		// cut off. Such a torn tail was never acknowledged as written, so it marks the end of the log. Anywhere else
+		// a cut is still an error.
+		isNewestFile := i == len(walFiles)-1
+
 		reader, err := r.walOptions.readerFactory(path)
 		if err != nil {
 			return fmt.Errorf("error while creating WAL reader under '%s': %w", path, err)
@@ -52,6 +57,9 @@ func (r *Replayer) Replay(process func(record []byte) error) (err error) {
 
 		err = reader.Open()
 		if err != nil {
+			if isNewestFile && (errors.Is(err, io.EOF) || errors.Is(err, io.ErrUnexpectedEOF)) {
+				break
+			}
 			return fmt.Errorf("error while opening WAL reader under '%s': %w", path, err)
 		}
 
@@ -59,6 +67,10 @@ func (r *Replayer) Replay(process func(record []byte) error) (err error) {
 			bytes, err := reader.ReadNext()
 			// io.EOF signals that no records are left to be read
 			if errors.Is(err, io.EOF) {
+				break
+			}
+
+			if isNewestFile && errors.Is(err, io.ErrUnexpectedEOF) {
 				break
 			}
 
